@@ -130,7 +130,7 @@ def errR (code : String) : Resp := { code := if code = "" then "InternalError" e
 
 theorem errR_code_ne (c : String) : (errR c).code ≠ "" := by
   unfold errR; split <;> simp_all
-def okR (fields : List (String × String) := []) (events : List String := []) : Resp := { fields := fields, events := events }
+def okR (fields : List (String × String) := []) (events : List Event := []) : Resp := { fields := fields, events := events }
 
 /-! ### authentication and the ACL-parser middleware -/
 
@@ -269,7 +269,7 @@ def putVersions (cfg : Cfg) (b : Bucket) (vs : List Ver) (p : PutSpec) (newVid :
   else if cfg.versioning && b.versioning == .suspended then (mkVer p [] :: vs.filter (·.vid != []), Bytes.ofString "null")
   else ([mkVer p []], [])
 
-def evt (name : String) (b k : Bytes) : String := s!"{name} {hx b} {hx k}"
+def evt (name : String) (b k : Bytes) (size : Nat := 0) (etag : Bytes := []) : Event := ⟨name, b, k, size, etag⟩
 
 /-- A delete marker is the file of the version it replaces, flagged: it keeps that version's
 lock attributes (legal hold, retention). -/
@@ -454,7 +454,7 @@ def handle (cfg : Cfg) (s : State) (w : Who) (now : Int) : Op → State × Resp
     guarded (verifyAccess cfg bk w .write actPutObject k) s fun _ =>
     guarded (lockCheck bk w now true k []) s fun _ =>
     let (vs, vid) := putVersions cfg bk (bk.versions k) p newVid
-    (setBucket s (bk.setVersions k vs), okR [("etag", hx p.etag), ("vid", hx vid)] [evt "s3:ObjectCreated:Put" b k])
+    (setBucket s (bk.setVersions k vs), okR [("etag", hx p.etag), ("vid", hx vid)] [evt "s3:ObjectCreated:Put" b k p.data.size p.etag])
   | .getObject b k vid => withBucket s b fun bk =>
     guarded (verifyAccess cfg bk w .read (if vid.isEmpty then actGetObject else actGetObjectVersion) k) s fun _ =>
     if vid.isEmpty then
@@ -486,14 +486,15 @@ def handle (cfg : Cfg) (s : State) (w : Who) (now : Int) : Op → State × Resp
     -- the access decision is taken for every key of the batch (bucket-level when the list is empty)
     guarded ((if keys.isEmpty then [[]] else keys.map (·.1)).findSome? fun k => verifyAccess cfg bk w .write actDeleteObject k) s fun _ =>
     guarded (keys.findSome? fun (k, v) => lockCheck bk w now bypass k v) s fun _ =>
-    let (bk', out, _) := keys.foldl (fun (acc : Bucket × List String × List Bytes) (kv : Bytes × Bytes) =>
+    let (bk', out, _) := keys.foldl (fun (acc : Bucket × List (Bytes × String) × List Bytes) (kv : Bytes × Bytes) =>
         let (cur, out, vids) := acc
         let nv := vids.head?.getD []
         let (cur', r) := deleteOne cfg cur kv.1 kv.2 nv
         let usedMarker := r.fields.any (fun f => f.1 == "deletemarker" && f.2 == "true") && kv.2.isEmpty
-        (cur', out ++ [if r.code == "" then hx kv.1 else hx kv.1 ++ "!" ++ r.code], if usedMarker then vids.drop 1 else vids))
+        (cur', out ++ [(kv.1, r.code)], if usedMarker then vids.drop 1 else vids))
       (bk, [], newVids)
-    (setBucket s bk', okR [("deleted", ",".intercalate out)] [evt "s3:ObjectRemoved:DeleteObjects" b []])
+    (setBucket s bk', okR [("deleted", ",".intercalate (out.map fun (k, c) => if c == "" then hx k else hx k ++ "!" ++ c))]
+      ((out.filter (·.2 == "")).map fun (k, _) => evt "s3:ObjectRemoved:DeleteObjects" b k))
   | .copyObject sb sk svid b k replace newVid => withBucket s b fun bk =>
     -- VerifyObjectCopyAccess: read-only refusal, root/admin shortcut, then destination, then source
     let chk : Option String :=
@@ -528,7 +529,7 @@ def handle (cfg : Cfg) (s : State) (w : Who) (now : Int) : Op → State × Resp
           | some r => { r with data := src.data, etag := src.etag, tags := if r.tags.isSome then r.tags else src.tags }
           | none => { data := src.data, etag := src.etag, ctype := src.ctype, umeta := src.umeta, hdrs := src.hdrs, tags := src.tags }
         let (vs, vid) := putVersions cfg bk (bk.versions k) spec newVid
-        (setBucket s (bk.setVersions k vs), okR [("etag", hx src.etag), ("vid", hx vid)] [evt "s3:ObjectCreated:Copy" b k])
+        (setBucket s (bk.setVersions k vs), okR [("etag", hx src.etag), ("vid", hx vid)] [evt "s3:ObjectCreated:Copy" b k src.data.size src.etag])
   | .putObjectTagging b k tags => withBucket s b fun bk =>
     guarded (verifyAccess cfg bk w .write actPutObjectTagging k) s fun _ =>
     match bk.versions k with
@@ -651,18 +652,41 @@ def handle (cfg : Cfg) (s : State) (w : Who) (now : Int) : Op → State × Resp
       | .ok chosen =>
         let (vs, vid) := completeVersions cfg bk (bk.versions k) (assembled up chosen mpEtag) newVid
         let bk' := { (bk.setVersions k vs) with uploads := bk.uploads.filter fun u => !(u.key == k && u.id == id) }
-        (setBucket s bk', okR [("etag", hx mpEtag), ("vid", hx vid)] [evt "s3:ObjectCreated:CompleteMultipartUpload" b k])
+        (setBucket s bk', okR [("etag", hx mpEtag), ("vid", hx vid)] [evt "s3:ObjectCreated:CompleteMultipartUpload" b k (Data.size (chosen.flatMap fun (p : Part) => p.data)) mpEtag])
   | .abortUpload b k id => withBucket s b fun bk =>
     guarded (verifyAccess cfg bk w .write actAbortUpload k) s fun _ =>
     match bk.uploads.find? (fun u => u.key == k && u.id == id) with
     | none => (s, errR "NoSuchUpload")
     | some _ => (setBucket s { bk with uploads := bk.uploads.filter fun u => !(u.key == k && u.id == id) }, okR)
 
+/-- s3event.EventFilter.Filter: the exact name decides if listed, else its `…:*` wildcard if
+listed, else the event is dropped; without a filter file every event passes -/
+def filterPass (f : Option (List (String × Bool))) (name : String) : Bool :=
+  match f with
+  | none => true
+  | some m =>
+    match m.find? (·.1 == name) with
+    | some (_, v) => v
+    | none =>
+      let wild := ":".intercalate ((name.splitOn ":").dropLast ++ ["*"])
+      match m.find? (·.1 == wild) with
+      | some (_, v) => v
+      | none => false
+
+/-- SendResponse / SendXMLResponse hand a record to the event sender only on the success path,
+and the sender applies the filter -/
+def finish (cfg : Cfg) (x : State × Resp) : State × Resp :=
+  (x.1, { x.2 with events := if x.2.code = "" then x.2.events.filter (fun e => filterPass cfg.eventFilter e.name) else [] })
+
+@[simp] theorem finish_fst (cfg : Cfg) (x : State × Resp) : (finish cfg x).1 = x.1 := rfl
+@[simp] theorem finish_code (cfg : Cfg) (x : State × Resp) : (finish cfg x).2.code = x.2.code := rfl
+@[simp] theorem finish_fields (cfg : Cfg) (x : State × Resp) : (finish cfg x).2.fields = x.2.fields := rfl
+
 /-- One request: authentication first; a request without a valid SigV4 proof for an existing
 account is refused before anything else happens. -/
 def step (cfg : Cfg) (s : State) (r : Req) : State × Resp :=
   match resolve cfg s r.caller with
   | none => (s, errR "AccessDenied")     -- canonical class of all 403/400 authentication refusals
-  | some w => handle cfg s w r.now r.op
+  | some w => finish cfg (handle cfg s w r.now r.op)
 
 end Vgw.Model.Gw
